@@ -24,9 +24,9 @@ const (
 	sigExit
 )
 
-type ctl struct{ sig signal }    // control signal crossing an expression
-type rtErr struct{ msg string }  // runtime error
-type budgetErr struct{}          // model step budget exhausted
+type ctl struct{ sig signal }   // control signal crossing an expression
+type rtErr struct{ msg string } // runtime error
+type budgetErr struct{}         // model step budget exhausted
 
 type frame struct {
 	vars map[string]*Slot
